@@ -10,6 +10,9 @@ MODULES = ["RotoV.Model.BoundaryLayout", "RotoV.Model.Boundary", "RotoV.Lemmas.B
 # reads of host storage are copies: the store model of the LIR and its provenance check
 PROPS_STORE = "RotoV.Props.C05Store"
 MODULES_STORE = ["RotoV.Model.BoundaryStore", "RotoV.Lemmas.BoundaryStore"]
+# every read sees an assigned value: definite assignment on the blocks of the LIR
+PROPS_DEFUSE = "RotoV.Props.C05DefUse"
+MODULES_DEFUSE = ["RotoV.Model.BoundaryDefUse", "RotoV.Lemmas.BoundaryDefUse"]
 
 
 def search(ctx):
@@ -29,7 +32,7 @@ def run(ctx):
         os.remove(f)
     ctx.extract(["boundary"])
     theorems, examples, axioms = [], 0, {}
-    for props, mods in ((PROPS, MODULES), (PROPS_STORE, MODULES_STORE)):
+    for props, mods in ((PROPS, MODULES), (PROPS_STORE, MODULES_STORE), (PROPS_DEFUSE, MODULES_DEFUSE)):
         ctx.prove(props, extra_modules=mods)
         theorems += ctx.coverage.get("theorems", [])
         examples += ctx.coverage.get("nonvacuity_examples", 0)
